@@ -70,7 +70,8 @@ SPEC = {
                   add=lambda I, b, t: b.add_platform(_fpinfo(I, t)), remove=lambda b: b.remove_platform(0), items=lambda b: b._platforms,
                   explicit=lambda I, t: _fpcal_explicit(I, t)),
     "fpdata": dict(kind="fpdata", new=lambda I: I.mod("tdfForcePlatformsData").ForcePlatformsDataBlock(0.0, 100, 1),
-                   add=lambda I, b, t: b.add_platform(_fpdata(I, t)), remove=None, items=lambda b: b.platforms),
+                   add=lambda I, b, t: b.add_platform(_fpdata(I, t)), remove=None, items=lambda b: b.platforms,
+                   assign=lambda I, b, t: setattr(b, "platforms", [_fpdata(I, t)]), list_attr="platforms", item=lambda I, t: _fpdata(I, t)),
 }
 
 
@@ -145,16 +146,18 @@ def fresh_case(cls, mutation):
         elif mutation == "assign_shared":
             # one caller-owned list assigned to both blocks, then A is edited through its
             # public interface: the setter must have installed a private copy in each
-            t0 = _track(I, cls, "sh0")
+            attr = spec.get("list_attr", "tracks")
+            t0 = spec["item"](I, "sh0") if "item" in spec else _track(I, cls, "sh0")
             lst = [t0]
-            a.tracks = lst
-            b.tracks = lst
+            setattr(a, attr, lst)
+            setattr(b, attr, lst)
             b0 = snap(I, spec, b)
             spec["add"](I, a, "a1")
             I.prove(f"C20.{cls}.callers_list_not_captured", len(lst) == 1 and lst[0] is t0, mutation)
         elif mutation == "assign_from_other":
+            attr = spec.get("list_attr", "tracks")
             spec["add"](I, a, "a0")
-            b.tracks = a.tracks
+            setattr(b, attr, getattr(a, attr))
             b0 = snap(I, spec, b)
             spec["add"](I, a, "a1")
         b1 = snap(I, spec, b)
@@ -306,6 +309,30 @@ def cross_class_case(first, second):
     return h
 
 
+def replicate_case(cls, earlier):
+    """The same construction steps give the same block, whatever other instances did before
+    (no hidden process-wide counters): block B is built exactly like block A - same items,
+    automatic channels - after `earlier` other instances have been built and filled."""
+    def h(I):
+        I.fresh_modules()
+        spec = ALL[cls]
+        a = spec["new"](I)
+        spec["add"](I, a, "r0")
+        spec["add"](I, a, "r1")
+        ea = B.encode(I, a)
+        for k in range(earlier):
+            o = spec["new"](I)
+            spec["add"](I, o, f"o{k}")
+        b = spec["new"](I)
+        spec["add"](I, b, "r0")  # the same inputs by name: identical items
+        spec["add"](I, b, "r1")
+        eb = B.encode(I, b)
+        I.observe("enc", [ea, eb])
+        I.prove(f"C20.{cls}.same_steps_give_the_same_block", ea == eb, f"{earlier} other instance(s) in between")
+        I.goal("done")
+    return h
+
+
 def populated_case(cls, mutation):
     """A and B each hold their own item; A is mutated; B must not notice."""
     def h(I):
@@ -397,6 +424,9 @@ def instances(tier):
             out.append(Instance(f"{cls}.decode.{m}", decode_case(cls, m), goals=["done"]))
     for m in ["add", "edit_nested"]:
         out.append(Instance(f"calib.decode.{m}", decode_case("calib", m), goals=["done"]))
+    for cls in ALL:
+        for earlier in (0, 1):
+            out.append(Instance(f"{cls}.replicate.{earlier}", replicate_case(cls, earlier), goals=["done"]))
     for first, second in (("events", "optical"), ("optical", "events"), ("fpcal", "optical"), ("optical", "fpcal")):
         out.append(Instance(f"cross.{first}.then.{second}", cross_class_case(first, second), goals=["done"]))
     return out
